@@ -119,6 +119,14 @@ class Repo:
         self.modules: Dict[str, ModuleInfo] = {}
         self._load()
         self._link()
+        # one canonical argument form for package-internal calls (keyword arguments moved into their positional slots where
+        # the callee is known): every rule then sees `_Subtotals(d, e)` whether the code spells the parameter names or not
+        try:
+            from .callnorm import normalise_repo
+
+            normalise_repo(self)
+        except Exception:  # the normalisation is an aid, never a reason to fail the analysis
+            pass
 
     # ------------------------------------------------------------------ loading
     def _load(self):
